@@ -20,7 +20,9 @@ Quick tour
             key).  Each: {"name", "time": Valid|Expired|NotYet, "curve": P256|P384|RSA,
             "sig": "parent"|"other"|"swap"|"foreign",
             "naming": canon|selfissued|likeparent|nomatch|rootissuer|dupsubject|rootsubject,
-            "content": {serial, bc, key_usage, ski, hash} (see random_content)}
+            "content": {serial, bc, key_usage, ski, hash} (see random_content),
+            "is_root": True  -> this element IS the genuine root certificate (root key, self-signed),
+            "filler": True   -> may take its key from the pool (spec["key_pool"] = size) in long chains}
             naming = which distinguished NAMES are written inside the certificate (the signature is
             always made by the key of the element that certifies it, whatever the names say):
               canon        fresh subject, issuer = subject of the certifying certificate
@@ -342,6 +344,16 @@ class Key:
 
     def cert_hash(self):
         return hashes.SHA384() if self.curve == "P384" else hashes.SHA256()
+
+
+_KEY_POOL = []
+
+
+def _key_pool(n):
+    """A per-process pool of n P-256 keys for the filler elements of very long chains."""
+    while len(_KEY_POOL) < n:
+        _KEY_POOL.append(Key("P256"))
+    return _KEY_POOL[:n]
 
 
 # ------------------------------------------------------------------------------------------------
@@ -694,9 +706,23 @@ def build(spec, rng, now=None):
         cns[xs["name"]] = "verif %s %d" % (xs["name"], rng.getrandbits(32))
     if sp.get("embed"):
         cns["embedded:" + ROOT_NAME] = root_cn if sp["embed"]["kind"] == "genuine" else cns["foreign_root"]
+    pool = _key_pool(int(sp["key_pool"])) if sp.get("key_pool") else None
     for i, xs in enumerate(sp["x509"]):
         n = xs["name"]
-        keys[n] = Key(xs.get("curve", "P256"))
+        if xs.get("is_root"):
+            # this chain element IS the genuine root certificate (root key, self-signed); whatever it
+            # certifies is therefore signed by the root key
+            keys[n], der[n], cns[n] = keys[ROOT_NAME], der[ROOT_NAME], root_cn
+            if "rot:" + ROOT_NAME in windows:
+                windows[n] = windows["rot:" + ROOT_NAME]
+            elements[n] = {"name": n, "type": "x509_pem", "signed_by": parent}
+            xnames.append(n)
+            parent = n
+            continue
+        if pool and xs.get("filler") and xs.get("curve", "P256") == "P256":
+            keys[n] = pool[i % len(pool)]       # (long chains: a pool of keys instead of one per element)
+        else:
+            keys[n] = Key(xs.get("curve", "P256"))
         sig = xs.get("sig", "parent")
         signer = keys[parent] if sig != "other" else other_key(keys[parent])
         issuer_cn = cns[parent]
@@ -1119,7 +1145,7 @@ def abstract_of(mat, effects=None, at=None):
     rep = sp.get("reparent") or {}
     keyid = {ROOT_NAME: ROOT_NAME}
     for xs in sp["x509"]:
-        keyid[xs["name"]] = xs["name"]
+        keyid[xs["name"]] = ROOT_NAME if xs.get("is_root") else xs["name"]
     for xs in sp.get("extra") or []:
         keyid[xs["name"]] = xs.get("samekey_as") or xs["name"]
     els = {}
@@ -1128,6 +1154,13 @@ def abstract_of(mat, effects=None, at=None):
     def x509_abs(xs, orig_parent):
         n = xs["name"]
         flipped = "sig" in effects.get(n, ())
+        if xs.get("is_root"):
+            root_item = {"time": "Valid"}
+            root_item.update(sp.get("root") or {})
+            t, w = time_win(n, root_item)
+            return {"kind": "x509", "by": rep.get(n, orig_parent), "key": ROOT_NAME,
+                    "sigBy": "other" if flipped else ROOT_NAME, "naming": "canon", "time": t, "win": w,
+                    "curve": _curve_class(mat["keys"][ROOT_NAME]), "binds": True, "keyValid": True}
         sig_ok = xs.get("sig", "parent") == "parent" and not flipped
         if xs.get("sig") == "foreign" and not flipped:
             signer = "foreign"
